@@ -823,12 +823,25 @@ type member struct {
 	Announce int64 `json:"announce,omitempty"`
 }
 
+// encoding: how the (same) member list is serialised.  Every choice is a valid encoding any compliant reader accepts;
+// the resulting index must not depend on it.
+type encoding struct {
+	TarFormat  string `json:"tar_format,omitempty"`   // "" (writer's choice) | ustar | pax | gnu
+	TarPad     int    `json:"tar_pad,omitempty"`      // extra zero blocks after the end-of-archive marker (tar -b blocking)
+	GzCutAfter []int  `json:"gz_cut_after,omitempty"` // tar.gz: a new gzip member starts after these entries (entry boundaries)
+	GzCutAt    []int  `json:"gz_cut_at,omitempty"`    // tar.gz: a new gzip member starts at these per-mille positions of the tar stream
+	GzLevel    int    `json:"gz_level,omitempty"`     // 0 default | 1 stored | 2 fastest | 3 best
+	GzHeader   bool   `json:"gz_header,omitempty"`    // gzip header carrying name, comment and extra field
+	ZipStore   bool   `json:"zip_store,omitempty"`    // zip: stored instead of deflated entries
+}
+
 type archCase struct {
 	Op      string   `json:"op"` // members | arch | garbage
 	Format  string   `json:"format"`
 	Members []member `json:"members"`
 	Strip   int      `json:"strip"`
 	SizeMax int      `json:"size_max"`
+	Enc     encoding `json:"enc"`
 	Raw     []byte   `json:"raw,omitempty"` // garbage: the file as is
 }
 
@@ -859,8 +872,37 @@ func genMemberName(r *gen.Rand, top string) string {
 	return nm
 }
 
-func genArchCase(r *gen.Rand, op string) archCase {
-	c := archCase{Op: op, Format: gen.Pick(r, []string{"tar", "tar", "tgz", "zip"})}
+// genEncoding: one of the valid serialisations of a member list.
+func genEncoding(r *gen.Rand, format string, nMembers int) encoding {
+	var e encoding
+	switch format {
+	case "tar", "tgz":
+		e.TarFormat = gen.Pick(r, []string{"", "", "ustar", "pax", "gnu"})
+		if r.Chance(1, 4) {
+			e.TarPad = r.Range(1, 18) // e.g. GNU tar's default blocking factor of 20
+		}
+		if format == "tgz" {
+			e.GzLevel = r.Intn(4)
+			e.GzHeader = r.Chance(1, 3)
+			if r.Chance(3, 5) { // several concatenated gzip members (RFC 1952 §2.2; bgzip, pigz -i, `gzip -c part >> out.tgz`)
+				for i := r.Range(1, 3); i > 0; i-- {
+					if nMembers > 0 && r.Chance(2, 3) {
+						e.GzCutAfter = append(e.GzCutAfter, r.Intn(nMembers))
+					} else {
+						e.GzCutAt = append(e.GzCutAt, r.Intn(1001))
+					}
+				}
+			}
+		}
+	case "zip":
+		e.ZipStore = r.Chance(1, 3)
+	}
+	return e
+}
+
+func genArchCase(r *gen.Rand, op string) (c archCase) {
+	c = archCase{Op: op, Format: gen.Pick(r, []string{"tar", "tgz", "tgz", "zip"})}
+	defer func() { c.Enc = genEncoding(r, c.Format, len(c.Members)) }()
 	c.SizeMax = 1 << 20
 	if r.Chance(1, 5) {
 		c.SizeMax = r.Range(8, 40)
@@ -906,7 +948,12 @@ func genArchCase(r *gen.Rand, op string) archCase {
 	return c
 }
 
+// what the last writeArchive produced (distribution counters)
+var lastGzPieces int
+var lastGzBoundaryCut bool
+
 func writeArchive(path string, c archCase) error {
+	lastGzPieces, lastGzBoundaryCut = 0, false
 	f, err := os.Create(path)
 	if err != nil {
 		return err
@@ -919,13 +966,11 @@ func writeArchive(path string, c archCase) error {
 	mt := time.Unix(1700000000, 0)
 	switch c.Format {
 	case "tar", "tgz":
-		var w io.Writer = f
-		var gz *gzip.Writer
-		if c.Format == "tgz" {
-			gz = gzip.NewWriter(f)
-			w = gz
-		}
-		tw := tar.NewWriter(w)
+		// the tar stream first (remembering where every entry ends), then the container around it
+		var raw bytes.Buffer
+		var bounds []int
+		tw := tar.NewWriter(&raw)
+		lied := false
 		for _, m := range c.Members {
 			h := &tar.Header{Name: m.Name, Mode: 0o644, ModTime: mt}
 			switch m.Kind {
@@ -947,31 +992,94 @@ func writeArchive(path string, c archCase) error {
 			case "o":
 				h.Typeflag = tar.TypeFifo
 			}
+			switch c.Enc.TarFormat {
+			case "ustar":
+				h.Format = tar.FormatUSTAR
+			case "pax":
+				h.Format = tar.FormatPAX
+			case "gnu":
+				h.Format = tar.FormatGNU
+			}
 			if err := tw.WriteHeader(h); err != nil {
-				return err
+				// the requested format cannot represent this header (long or non-ASCII name, huge size): writer's choice
+				h.Format = tar.FormatUnknown
+				if err := tw.WriteHeader(h); err != nil {
+					return err
+				}
 			}
 			if m.Kind == "r" && m.Lie {
 				// the body that was really transferred, then the stream simply ends (no padding, no trailer)
-				if _, err := w.Write(m.Data); err != nil {
-					return err
-				}
-				if gz != nil {
-					return gz.Close()
-				}
-				return nil
+				raw.Write(m.Data)
+				lied = true
+				break
 			}
 			if m.Kind == "r" {
 				if _, err := tw.Write(m.Data); err != nil {
 					return err
 				}
 			}
+			if err := tw.Flush(); err != nil { // pads the entry to a block boundary
+				return err
+			}
+			bounds = append(bounds, raw.Len())
 		}
-		if err := tw.Close(); err != nil {
+		if !lied {
+			if err := tw.Close(); err != nil {
+				return err
+			}
+			raw.Write(make([]byte, 512*c.Enc.TarPad))
+		}
+		data := raw.Bytes()
+		if c.Format == "tar" {
+			_, err := f.Write(data)
 			return err
 		}
-		if gz != nil {
-			return gz.Close()
+		// tar.gz: one gzip member per piece
+		cutSet := map[int]bool{}
+		for _, i := range c.Enc.GzCutAfter {
+			if i >= 0 && i < len(bounds) {
+				cutSet[bounds[i]] = true
+			}
 		}
+		for _, pm := range c.Enc.GzCutAt {
+			cutSet[len(data)*pm/1000] = true
+		}
+		var cuts []int
+		for p := range cutSet {
+			if p >= 0 && p <= len(data) {
+				cuts = append(cuts, p)
+			}
+		}
+		sort.Ints(cuts)
+		cuts = append(cuts, len(data))
+		level := []int{gzip.DefaultCompression, gzip.NoCompression, gzip.BestSpeed, gzip.BestCompression}[c.Enc.GzLevel%4]
+		prev := 0
+		for k, p := range cuts {
+			if k > 0 && p == prev {
+				continue
+			}
+			gz, err := gzip.NewWriterLevel(f, level)
+			if err != nil {
+				return err
+			}
+			if c.Enc.GzHeader {
+				gz.Name, gz.Comment, gz.Extra, gz.ModTime = "part.tar", "written by the C15 harness", []byte{1, 2, 3, 4}, mt
+			}
+			if _, err := gz.Write(data[prev:p]); err != nil {
+				return err
+			}
+			if err := gz.Close(); err != nil {
+				return err
+			}
+			lastGzPieces++
+			for _, b := range bounds {
+				if p == b && p < len(data) {
+					lastGzBoundaryCut = true
+				}
+			}
+			prev = p
+		}
+		return nil
 	case "zip":
 		zw := zip.NewWriter(f)
 		for _, m := range c.Members {
@@ -990,6 +1098,9 @@ func writeArchive(path string, c archCase) error {
 				continue
 			}
 			h := &zip.FileHeader{Name: m.Name, Method: zip.Deflate, Modified: mt}
+			if c.Enc.ZipStore {
+				h.Method = zip.Store
+			}
 			switch m.Kind {
 			case "r":
 				h.SetMode(0o644)
@@ -1062,6 +1173,16 @@ func (e *env) runArch(c archCase) {
 	}
 	detail := gen.Detail(c)
 	shape := archShape(c)
+	if c.Format == "tgz" && c.Raw == nil {
+		if lastGzPieces > 1 {
+			e.w.Count("tgz-multi-member-"+c.Op, 1)
+			if lastGzBoundaryCut {
+				e.w.Count("tgz-member-ends-at-entry-boundary-"+c.Op, 1)
+			}
+		} else {
+			e.w.Count("tgz-single-member-"+c.Op, 1)
+		}
+	}
 	switch c.Op {
 	case "members":
 		ms, err := verifhooks.C15Members(path)
